@@ -537,12 +537,66 @@ fn null_placement(lib: &Lib, k: usize) -> Option<(String, u64)> {
                 ("mla_roarchive_extract(&cfg) again after a failed extraction", (lib.roarchive_extract)(&mut cfg, Some(read_cb), Some(seek_cb), Some(file_cb), ctx))
             }
         }
+        // ---- calls the interface must refuse for other reasons than a NULL pointer (C09 through C)
+        37 => {
+            // a second file with the name of the first: refused; the archive goes on and holds the first only
+            open(&mut cfg, &mut ar);
+            let mut fh2: *mut c_void = std::ptr::null_mut();
+            (lib.archive_file_new)(ar, name.as_ptr(), &mut fh);
+            let st = (lib.archive_file_new)(ar, name.as_ptr(), &mut fh2);
+            if st == 0 {
+                ("mla_archive_file_new with a name already used in the archive", 0)
+            } else {
+                let ok = (lib.archive_file_append)(ar, fh, data.as_ptr(), 3) == 0 && (lib.archive_file_close)(ar, &mut fh) == 0 && (lib.archive_close)(&mut ar) == 0;
+                let good = ok
+                    && match guard(|| prog::read_all(&env.out, &[0])) {
+                        Ok(Ok(files)) => files.len() == 1 && files.get("f").map(|f| f.data == data) == Some(true),
+                        _ => false,
+                    };
+                ("archive left by a refused duplicate mla_archive_file_new is not the archive of the accepted calls", if good { 1 } else { 0 })
+            }
+        }
+        38 => {
+            // closing the archive while a file is still open
+            open(&mut cfg, &mut ar);
+            (lib.archive_file_new)(ar, name.as_ptr(), &mut fh);
+            ("mla_archive_close with a file still open", (lib.archive_close)(&mut ar))
+        }
+        39 => {
+            fresh_cfg(&mut cfg);
+            ("mla_config_set_compression_level(cfg, 12)", (lib.config_set_compression_level)(cfg, 12))
+        }
+        40 => {
+            (lib.config_default_new)(&mut cfg);
+            let junk = CString::new("-----BEGIN PUBLIC KEY-----\nAAAA\n-----END PUBLIC KEY-----\n").unwrap();
+            ("mla_config_add_public_keys(cfg, malformed PEM)", (lib.config_add_public_keys)(cfg, junk.as_ptr()))
+        }
+        41 => {
+            (lib.reader_config_new)(&mut cfg);
+            ("mla_reader_config_add_private_key(cfg, a PUBLIC key)", (lib.reader_config_add_private_key)(cfg, pk.as_ptr()))
+        }
+        42 | 43 => {
+            // extraction of an encrypted archive without a key / with a foreign key
+            let p = Program::new(vec![Op::Add(0, 5)], Entropy::Pattern);
+            env.src = prog::build(&p, &Cfg::new(L4::Both)).map(|x| x.0).unwrap_or_default();
+            (lib.reader_config_new)(&mut cfg);
+            if k == 43 {
+                let foreign = pem_of_key(5, true);
+                (lib.reader_config_add_private_key)(cfg, foreign.as_ptr());
+            }
+            let st = (lib.roarchive_extract)(&mut cfg, Some(read_cb), Some(seek_cb), Some(file_cb), ctx);
+            if st != 0 && env.files.iter().any(|f| !f.1.is_empty()) {
+                ("mla_roarchive_extract without the right key failed but delivered file content", 0)
+            } else {
+                (if k == 42 { "mla_roarchive_extract of an encrypted archive without a key" } else { "mla_roarchive_extract of an encrypted archive with a foreign key" }, st)
+            }
+        }
         _ => return None,
     };
     Some((r.0.to_string(), r.1))
 }
 
-pub const N_NULL: usize = 37;
+pub const N_NULL: usize = 44;
 
 fn run_case(lib: &Lib, c: &Case, rep: &mut Report) {
     let replay = c.json();
@@ -822,7 +876,7 @@ pub fn run(started: Instant) -> i32 {
         rep,
         Meta {
             level: "model_checking",
-            rule: "libmla.so built from the working tree is loaded with dlopen and driven through its C entry points in worker processes. (1) every program of a bounded tree (and rich bases, flush placements) expressed as mla_archive_file_new/append/flush/close + mla_archive_close, with write callbacks that accept everything / 1 byte / 7 bytes per call; the collected bytes are read by the Rust ArchiveReader and compared with the reference model; where the program calls mla_archive_flush, the bytes the callback had received when it returned are repaired and must hold what had been appended (C14's oracle). (2) archives written by the Rust writer (4 layer combos) extracted with mla_roarchive_extract through read callbacks returning everything / 1 / 5 bytes and per-file write callbacks accepting partial buffers: exact bytes per file; also with a file callback that declines every other file (subset extraction: nothing for the declined ones); base programs also with non-ASCII, nested and spaced names in both directions. (3) for a subset of (1)/(2), at EVERY callback invocation index: accept 1 byte, accept half, or report failure - a reported failure must surface as a non-success status no later than the close; 37 NULL-pointer / cleared-handle / double-close / handle-after-failed-call placements must return a non-success status. No crash, signal or panic across the FFI in any case. states = distinct (case, schedule)".to_string(),
+            rule: "libmla.so built from the working tree is loaded with dlopen and driven through its C entry points in worker processes. (1) every program of a bounded tree (and rich bases, flush placements) expressed as mla_archive_file_new/append/flush/close + mla_archive_close, with write callbacks that accept everything / 1 byte / 7 bytes per call; the collected bytes are read by the Rust ArchiveReader and compared with the reference model; where the program calls mla_archive_flush, the bytes the callback had received when it returned are repaired and must hold what had been appended (C14's oracle). (2) archives written by the Rust writer (4 layer combos) extracted with mla_roarchive_extract through read callbacks returning everything / 1 / 5 bytes and per-file write callbacks accepting partial buffers: exact bytes per file; also with a file callback that declines every other file (subset extraction: nothing for the declined ones); base programs also with non-ASCII, nested and spaced names in both directions. (3) for a subset of (1)/(2), at EVERY callback invocation index: accept 1 byte, accept half, or report failure - a reported failure must surface as a non-success status no later than the close; 37 NULL-pointer / cleared-handle / double-close / handle-after-failed-call placements and 7 calls refused for other reasons (duplicate name - the archive must then be the archive of the accepted calls -, close with a file open, level 12, malformed or wrong-kind key, extraction without / with a foreign key) must return a non-success status. No crash, signal or panic across the FFI in any case. states = distinct (case, schedule)".to_string(),
             exhaustive: true,
             bounds: json!({"cases": cs.len(), "null_placements": N_NULL}),
             assumptions: vec!["the C API only offers the default layers (compress+encrypt) for writing".to_string(), "scaled constants".to_string()],
